@@ -2,7 +2,8 @@
 (* Model constants for Header.tla *)
 EXTENDS Header
 MCTags       == {"a", "b"}
-MCShapes     == {"none", "empty", "line1", "line3", "groups", "block1", "blockN", "mixed", "lead"}
+MCShapes     == {"none", "empty", "line1", "line3", "groups", "block1", "blockN", "mixed", "lead",
+                 "apache", "bsdlist", "numbered", "heading", "indented", "dashlist", "blocklist", "trailsp"}
 MCFormatters == {"goimports", "gofmt", "noop"}
 MCTemplates  == {"testify", "matryer"}
 MCPlacements == {"separate", "inpkg"}
